@@ -523,6 +523,7 @@ fn main() {
         "bnd_c20" => bounded::bnd_c20(),
         "bnd_doc" => bounded::bnd_doc(),
         "c03_elements" => bounded::c03_elements(),
+        "c14_elements" => bounded::c14_elements(),
         "c13_minwrap" => bounded::c13_minwrap(),
         "bnd_c08" => bounded::bnd_c08(),
         "bnd_c13" => bounded::bnd_c13(),
